@@ -3,7 +3,7 @@ import CsVerif.Gen.StrLit
 /-! C13 property theorems: a profile generated from a beacon configuration is valid and faithful.
 
 Model: `fromBeaconConfig` (Model/C13.lean) on the pretty values `settings_by_index` presents and `config.uris`;
-`WellFormedCfg` is the decidable domain of the property; `ValidTree` / `Derives` (Lemmas/C13.lean) say that a tree is the
+`WellFormedCfg` is the decidable domain of the property (any latin-1 text in text settings, any `config.uris`); `ValidTree` / `Derives` (Lemmas/C13.lean) say that a tree is the
 tree of a derivation of the generated grammar (C10's model of Lark); `specDict` is the dictionary of a tree, `expectedDict`
 the dictionary the property promises. -/
 namespace C13
@@ -88,6 +88,24 @@ theorem blocks_match :
 
 theorem listProps_pinned : listProps.length = 9 := by decide +kernel
 
+/-- the settings loop starts with `if isinstance(value, str): value = value.encode("latin-1")`: text taken from the
+configuration reaches `value_to_string` as bytes (`vts (.str s) = C12.valueToString s`, everything escaped).  Without it
+`str` values would take the `str` path, which escapes `"` only (a backslash in a user agent would change the value). -/
+theorem str_values_encoded : Gen.ProfileGen.strValuesEncoded = true := by decide
+
+/-- the SETTING_DOMAINS branch is the modelled one: join of the URIs that are not `None`, option omitted when the joined
+text is empty, literal written from `uris.encode("latin-1")` (bytes path) -/
+theorem uris_branch_modelled : Gen.ProfileGen.urisBranch = true := by decide
+
+/-- what the two facts above mean for the model: text and the joined URIs are written with the bytes escaping -/
+theorem text_takes_bytes_path (s : Bytes) (uris : List (Option Bytes)) (st : St) :
+    vts (.str s) = some (C12.valueToString s) ∧
+    runAct uris st .none .uris =
+      .ok (if (joinUris uris).isEmpty then st else st.app .httpGet (stmt (b "uri") [C12.valueToString (joinUris uris)])) := by
+  refine ⟨rfl, ?_⟩
+  simp only [runAct]
+  split <;> rfl
+
 
 /-- the STRING terminal is the regular expression C12's scanner (used by `litOK`) was derived from -/
 theorem string_pattern_is_modelled :
@@ -98,7 +116,7 @@ theorem string_pattern_is_modelled :
 /-! ### generation never fails -/
 
 /-- For every well-formed configuration `from_beacon_config` returns a tree (no exception). -/
-theorem generation_total (cfg : List (Nat × PVal)) (uris : List (Option Bytes)) (h : WellFormedCfg cfg uris = true) :
+theorem generation_total (cfg : List (Nat × PVal)) (uris : List (Option Bytes)) (h : WellFormedCfg cfg = true) :
     ∃ t, fromBeaconConfig cfg uris = .ok t := by
   obtain ⟨t, ht, _⟩ := total_and_valid h
   exact ⟨t, ht⟩
@@ -111,7 +129,7 @@ theorem settingsByIndex_nodup (tlvs : List (Nat × PVal)) : ((settingsByIndex tl
 
 /-- For every well-formed configuration the generated tree is the tree of a well-formed derivation of the grammar as
 it is now; hence Lark's Reconstructor (C10's `printTree`) prints it, to the token sequence of that derivation. -/
-theorem generated_valid (cfg : List (Nat × PVal)) (uris : List (Option Bytes)) (h : WellFormedCfg cfg uris = true)
+theorem generated_valid (cfg : List (Nat × PVal)) (uris : List (Option Bytes)) (h : WellFormedCfg cfg = true)
     (t : PTree) (ht : fromBeaconConfig cfg uris = .ok t) :
     ∃ d : C10.Deriv, d.WF C10.gen = true ∧ C10.toTree d = t.intern ∧
       C10.printTree C10.gen t.intern = some d.yield ∧ printable t = true := by
@@ -124,11 +142,11 @@ theorem generated_valid (cfg : List (Nat × PVal)) (uris : List (Option Bytes)) 
   exact ⟨d, hd, hdt, hp, by simp [printable, hp]⟩
 
 /-- Every token of the generated tree is well formed: an OPTION token is an alternative of the OPTION terminal, and every
-STRING token (configuration text with `"` escaped, numbers, `repr`-escaped bytes, the `"X" * n` placeholders, constants)
+STRING token (configuration text and bytes with `repr`-style escapes, numbers, the `"X" * n` placeholders, constants)
 is matched by the STRING regular expression as exactly one token (`litOK`: C12's scanner consumes it up to its own
 closing quote and nothing else) — no value can end its literal early or leave it open. -/
 theorem generated_tokens_wellformed (cfg : List (Nat × PVal)) (uris : List (Option Bytes))
-    (h : WellFormedCfg cfg uris = true) (t : PTree) (ht : fromBeaconConfig cfg uris = .ok t) : tokensOK t.kids = true := by
+    (h : WellFormedCfg cfg = true) (t : PTree) (ht : fromBeaconConfig cfg uris = .ok t) : tokensOK t.kids = true := by
   simp only [WellFormedCfg, Bool.and_eq_true] at h
   unfold fromBeaconConfig at ht
   cases hr : runSettings uris St.init cfg with
@@ -149,7 +167,7 @@ statement (`noComment`; the comment is, by design, not a token sequence for the 
 token sequence of a derivation of the grammar (C10's lexer model `lexProfile`, any identifier-character test `idc`
 that rejects blank, line feed and `;`). -/
 theorem generated_text_relexes (idc : Nat → Bool) (hidc : C10.IdcOK idc) (cfg : List (Nat × PVal))
-    (uris : List (Option Bytes)) (h : WellFormedCfg cfg uris = true) (t : PTree) (ht : fromBeaconConfig cfg uris = .ok t)
+    (uris : List (Option Bytes)) (h : WellFormedCfg cfg = true) (t : PTree) (ht : fromBeaconConfig cfg uris = .ok t)
     (hc : noComment t.kids = true) :
     ∃ toks, C10.printTree C10.gen t.intern = some toks ∧
       (C10.asText C10.gen idc t.intern).bind (C10.lexProfile C10.gen.words) = some (toks.map C10.gen.tokText) := by
@@ -169,7 +187,7 @@ theorem generated_text_relexes (idc : Nat → Bool) (hidc : C10.IdcOK idc) (cfg 
 /-- Blocks with no content are omitted: in the generated tree no node that is printed as `keyword { … }` (http_get,
 http_post, stage, process_inject, dns_beacon, http_beacon, client, server, output, metadata, id, transform_x86/x64,
 execute, beacon_gate), at any depth, has an empty children list. -/
-theorem empty_blocks_absent (cfg : List (Nat × PVal)) (uris : List (Option Bytes)) (h : WellFormedCfg cfg uris = true)
+theorem empty_blocks_absent (cfg : List (Nat × PVal)) (uris : List (Option Bytes)) (h : WellFormedCfg cfg = true)
     (t : PTree) (ht : fromBeaconConfig cfg uris = .ok t) : noEmptyBlocks t.kids = true := by
   simp only [WellFormedCfg, Bool.and_eq_true] at h
   unfold fromBeaconConfig at ht
@@ -184,11 +202,12 @@ theorem empty_blocks_absent (cfg : List (Nat × PVal)) (uris : List (Option Byte
 
 /-- For every well-formed configuration the dictionary of the re-parsed profile (`specDict` of the generated tree
 without the `# dns_resolver` comment) is, entry for entry and in order, the dictionary the property promises
-(`expectedDict`): sleeptime, jitter, spawnto, useragent, frame headers, URIs, verbs, submit URI, static headers and
+(`expectedDict`): sleeptime, jitter, spawnto, useragent, frame headers, URIs (those present, joined with `, `; no `uri`
+entry when there is none), verbs, submit URI, static headers and
 parameters, the steps of every BUILD group of the http-get / http-post client and of the http-get server output
 (arguments byte-exact: `.tuple kw [.ok bytes]` by C12's `literal_roundtrip`), process-inject, DNS, stage and BeaconGate
 options; guarded settings with a zero / empty value are absent. -/
-theorem generated_faithful (cfg : List (Nat × PVal)) (uris : List (Option Bytes)) (h : WellFormedCfg cfg uris = true)
+theorem generated_faithful (cfg : List (Nat × PVal)) (uris : List (Option Bytes)) (h : WellFormedCfg cfg = true)
     (t : PTree) (ht : fromBeaconConfig cfg uris = .ok t) :
     specDict t.reparsed = expectedDict cfg uris := by
   simp only [WellFormedCfg, Bool.and_eq_true, decide_eq_true_eq] at h
@@ -203,16 +222,60 @@ theorem generated_faithful (cfg : List (Nat × PVal)) (uris : List (Option Bytes
 
 /-- the same for a configuration given as an arbitrary TLV sequence (repeated settings allowed): dict semantics first -/
 theorem generated_faithful_tlv (tlvs : List (Nat × PVal)) (uris : List (Option Bytes))
-    (h : (settingsByIndex tlvs).all (wfSetting uris) = true) (t : PTree)
+    (h : (settingsByIndex tlvs).all wfSetting = true) (t : PTree)
     (ht : fromBeaconConfig (settingsByIndex tlvs) uris = .ok t) :
     specDict t.reparsed = expectedDict (settingsByIndex tlvs) uris :=
   generated_faithful _ uris (by simp [WellFormedCfg, h, settingsByIndex_keys_nodup]) t ht
 
-/-- plain text options state the configured text: the literal between the quotes decodes (profile escape rules,
-`string_token_to_bytes`) to the text itself -/
-theorem text_literal_decodes (s : Bytes) (h : wfText s = true) :
-    C12.stringTokenToBytes (C12.valueToStringStr s) = .ok s :=
-  str_roundtrip s (wfText_noBackslash s h)
+/-- plain text options state the configured text, whatever its characters (backslashes, quotes, control characters,
+non-ASCII latin-1): the literal written for a text value is one STRING token and decodes (profile escape rules,
+`string_token_to_bytes`) to the text itself; the dictionary value `lit (.str s)` is the text between its quotes -/
+theorem text_literal_decodes (s : Bytes) :
+    ∃ l, vts (.str s) = some l ∧ litOK l = true ∧ C12.stringTokenToBytes l = .ok s ∧ unquote l = lit (.str s) :=
+  ⟨_, rfl, litOK_bytes s, C12.roundtrip s, rfl⟩
+
+/-- the same for the `uri` option: its literal decodes to the URIs that are present, joined with `, ` -/
+theorem uris_literal_decodes (uris : List (Option Bytes)) :
+    litOK (C12.valueToString (joinUris uris)) = true ∧
+      C12.stringTokenToBytes (C12.valueToString (joinUris uris)) = .ok (joinUris uris) :=
+  ⟨litOK_bytes _, C12.roundtrip _⟩
+
+/-- the `# dns_resolver "…";` statement stays on one line: the literal of any scalar consists of printable ASCII
+characters only (a line feed in the configured text is written `\n`), so the comment the lexer sees ends where the
+statement ends.  (`comment_dns_resolver` is only ever written by a plain `set_option` branch: `resolver_only_plain`.) -/
+theorem scalar_literal_one_line (v : PVal) (l : Bytes) (h : vts v = some l) : ∀ c ∈ l, 0x20 ≤ c ∧ c < 0x7f := by
+  cases v with
+  | int n =>
+    simp only [vts, Option.some.injEq] at h
+    subst h
+    intro c hc
+    simp only [List.mem_append, List.mem_singleton] at hc
+    rcases hc with (rfl | hc) | rfl
+    · decide
+    · simp only [decBytes, List.mem_map] at hc
+      obtain ⟨ch, hch, rfl⟩ := hc
+      have hd := Nat.isDigit_of_mem_toDigits (by decide) (by decide) hch
+      simp only [Char.isDigit, Bool.and_eq_true, decide_eq_true_eq, ge_iff_le] at hd
+      have h1 : (48 : Nat) ≤ ch.toNat := UInt32.le_iff_toNat_le.mp hd.1
+      have h2 : ch.toNat ≤ 57 := UInt32.le_iff_toNat_le.mp hd.2
+      have hm : (ch.toNat.toUInt8).toNat = ch.toNat := by simp [Nat.toUInt8]; omega
+      constructor
+      · rw [UInt8.le_iff_toNat_le, hm]; simpa using (by omega : 32 ≤ ch.toNat)
+      · rw [UInt8.lt_iff_toNat_lt, hm]; simpa using (by omega : ch.toNat < 127)
+    · decide
+  | str t => simp only [vts, Option.some.injEq] at h; subst h; exact C12.valueToString_printable' t
+  | bytes t => simp only [vts, Option.some.injEq] at h; subst h; exact C12.valueToString_printable' t
+  | none => simp only [vts, Option.some.injEq] at h; subst h; decide
+  | _ => simp [vts] at h
+
+/-- the only branch of the chain that can write a `comment_dns_resolver` statement is a plain `block.set_option(label, value)` -/
+theorem resolver_only_plain :
+    actionTable.all (fun e => match e.2.2 with
+      | .blkOpt _ _ => true
+      | .blkConst _ l _ => !isComment (some l)
+      | .perms l _ _ => !isComment (some l)
+      | .injT l => !isComment (some l)
+      | _ => true) = true := by decide +kernel
 
 /-- every plain option states its value: the literal written for a number / text / bytes value decodes to the decimal
 digits / the text / the bytes -/
@@ -236,7 +299,7 @@ def exampleCfg : List (Nat × PVal) := [
   (51, .execute [some (k "CreateThread"), some (k "NtQueueApcThread_s")]),
   (78, .gate [k "Core", k "ExitThread"])]
 
-example : WellFormedCfg exampleCfg [some [47, 120]] = true := by decide +kernel
+example : WellFormedCfg exampleCfg = true := by decide +kernel
 example : (fromBeaconConfig exampleCfg [some [47, 120]]).toOption.map printable = some true := by decide +kernel
 example : (fromBeaconConfig exampleCfg [some [47, 120]]).toOption.map (fun t => noComment t.kids) = some true := by
   decide +kernel
